@@ -1,6 +1,19 @@
 // Package c01 checks property C01: a committed flush of the kv store is atomic and durable
 // across a process crash, half-written files never become visible or prevent reopening, and
 // file numbers of referenced files are never reused after recovery.
+//
+// History operations: createFamily, flush (writer opened and committed in one step), openWriter /
+// commitWriter (a writer that stays unfinished over later operations: several flushers and
+// compaction outputs of one store coexist in production), compact, deleteObsolete + cache cleanup,
+// storeCompact (one tick of the periodic store housekeeping, kv.JobScheduler -> Store.compact),
+// reopen, crash (recover images of the operations so far).
+// Harness-owned interleavings: (1) "window": while a flusher commit is at a manifest write/sync
+// seam (version-set mutex held, next file number already read), a helper goroutine opens 1-3
+// further writers on families of the store; (2) an obsolete-file pass of the family at the
+// tableCreate seam of a writer.
+// Oracles: reference model (live store after every operation, every recovered image = state
+// before or after the operation in flight, life after recovery), and at the tableCreate seam: no
+// table is created under a number that a referenced table or an unfinished writer still holds.
 package c01
 
 import (
@@ -8,7 +21,10 @@ import (
 	"os"
 	"path/filepath"
 	"sort"
+	"strconv"
 	"strings"
+	"sync"
+	"sync/atomic"
 	"testing"
 	"time"
 
@@ -81,7 +97,93 @@ type env struct {
 	ntHashes        []string
 	classes         map[string]int
 	recoveredStores int
+
+	// unfinished writers (flushers with data added, not yet committed), oldest first
+	pending   []*writer
+	writerSeq int
+	pendingAt []int // per history operation: number of unfinished writers when it began
+
+	// harness-owned interleaving inside a commit (see windowPlan)
+	plan     *windowPlan // armed for the commit in flight (main goroutine only)
+	lastPlan *windowPlan // for cleanup
+	window   atomic.Bool // a helper goroutine is opening writers: its table seams take no image
+	hmu      sync.Mutex  // serialises the imager (store housekeeping runs a background job)
+
+	// file numbers seen at the tableCreate seam during the operation in flight
+	tracking    atomic.Bool
+	cmu         sync.Mutex
+	created     []createRec
+	liveAtBegin map[int64]string // number -> who holds it (referenced table / unfinished writer)
+
+	nestAtCreate     bool // armed: run an obsolete-file pass at the next tableCreate seam of the main goroutine
+	phase            int  // quick tier: which residue of the point number gets an image
+	commitsInSession int  // successful non-empty commits since the store was (re)opened
+	multiWindow      bool // this session had a window in which >= 2 writers were opened
+	histLabels       map[string]bool
 }
+
+// writer is an unfinished writer of the history.
+type writer struct {
+	id       int
+	fam      string
+	fl       kv.Flusher
+	keys     []uint32
+	atom     uint32
+	num      int64 // file number of its table as seen at the tableCreate seam (-1: unknown)
+	released bool
+}
+
+type writerSpec struct {
+	id    int
+	fam   string
+	keys  []uint32
+	modes []bool // per key: stream writer instead of Add
+	atom  uint32
+}
+
+func (s writerSpec) String() string {
+	return fmt.Sprintf("w%d@%s keys=%v atom=%d", s.id, s.fam, s.keys, s.atom)
+}
+
+// windowPlan: while the commit of the operation in flight is at the given manifest seam (i.e.
+// between reading the next file number it logs and applying its edit log), a helper goroutine
+// opens further writers on families of the same store, as concurrent flush / compaction-output
+// goroutines do in production. The commit holds the version-set mutex at these seams, so the
+// helper must be a goroutine of its own; the main goroutine waits for it at the seam for at most
+// windowWait and in any case right after the commit returned, before anything else happens.
+type windowPlan struct {
+	seamOp string
+	before bool
+	specs  []writerSpec
+
+	fired  bool
+	inside bool // the helper finished while the commit was still at the seam
+	done   chan struct{}
+	opened []*writer
+	err    error
+}
+
+func (p *windowPlan) String() string {
+	if p == nil {
+		return "-"
+	}
+	ph := "after"
+	if p.before {
+		ph = "before"
+	}
+	return fmt.Sprintf("%s/%s%v", p.seamOp, ph, p.specs)
+}
+
+type createRec struct {
+	fam string
+	num int64
+}
+
+const (
+	maxPending  = 4
+	windowWait  = 30 * time.Millisecond
+	imageStride = 3
+)
 
 var keyUniverse = []uint32{0, 1, 2, 3, 4, 5, 6, 7, 8, 9, 10, 11, 12, 13, 14, 15, 16, 17, 18, 19, 20, 21, 22, 23, 24,
 	100, 101, 4095, 4096, 65534, 65535, 65536, 65537, 131071, 131072, 1 << 24, 1<<31 - 1, 1 << 31, 1<<32 - 2, 1<<32 - 1}
@@ -121,10 +223,159 @@ func (e *env) closeStore() {
 func (e *env) begin(name, family, detail string) {
 	e.states = append(e.states, e.cur.clone())
 	e.ops = append(e.ops, opRec{Name: name, Family: family, Detail: detail})
+	e.pendingAt = append(e.pendingAt, len(e.pending))
+	// who holds which file number right now: tables referenced by the current version of any
+	// family of the store and tables of unfinished writers
+	e.liveAtBegin = map[int64]string{}
+	if e.store != nil {
+		for _, n := range e.famNames {
+			f, ok := e.fams[n]
+			if !ok {
+				continue
+			}
+			snap := f.GetSnapshot()
+			for _, fm := range snap.GetCurrent().GetAllFiles() {
+				e.liveAtBegin[fm.GetFileNumber().Int64()] = "a table referenced by family " + n
+			}
+			for fn := range snap.GetCurrent().GetRollupFiles() {
+				e.liveAtBegin[fn.Int64()] = "a rollup file referenced by family " + n
+			}
+			snap.Close()
+		}
+	}
+	for _, w := range e.pending {
+		if w.num >= 0 {
+			e.liveAtBegin[w.num] = fmt.Sprintf("the table of unfinished writer w%d of family %s", w.id, w.fam)
+		}
+	}
+	e.cmu.Lock()
+	e.created = e.created[:0]
+	e.cmu.Unlock()
+	e.tracking.Store(true)
+	if !e.thorough {
+		// quick tier: an image is taken at every third file-system point, the phase is generated per operation
+		e.phase = rapid.IntRange(0, imageStride-1).Draw(e.t, "imagePhase")
+	}
 	e.im.Begin(len(e.ops)-1, name)
 }
 
-func (e *env) end() { e.im.End() }
+func (e *env) end() {
+	e.im.End()
+	e.tracking.Store(false)
+	// A table must never be created under a number that a committed table or an unfinished writer
+	// of the store still holds: creating the file truncates / shadows the other one, so a flush
+	// whose commit returned (or will return) success would be lost.
+	e.cmu.Lock()
+	created := append([]createRec(nil), e.created...)
+	e.cmu.Unlock()
+	for _, c := range created {
+		if owner, ok := e.liveAtBegin[c.num]; ok {
+			e.fatalf("operation %d (%s): a new table %s/%06d.sst is created under file number %d, which is still held by %s",
+				len(e.ops)-1, e.ops[len(e.ops)-1].Name, c.fam, c.num, c.num, owner)
+		}
+		e.liveAtBegin[c.num] = fmt.Sprintf("a table created earlier in the same operation (family %s)", c.fam)
+		if e.multiWindow {
+			e.classes["alloc-after-window>=2"]++
+			e.histLabels["hist-window>=2-then-alloc"] = true
+		}
+	}
+}
+
+// hook is installed at every file-system seam of kv, kv/version and kv/table.
+func (e *env) hook(op, path string, before bool) {
+	if op == "tableCreate" && before && e.tracking.Load() {
+		e.noteCreate(path)
+	}
+	if e.window.Load() && strings.HasPrefix(op, "table") {
+		return // helper goroutine of a window: no image, the imager belongs to the main goroutine
+	}
+	e.hmu.Lock()
+	e.im.Hook(op, path, before)
+	e.hmu.Unlock()
+	if e.nestAtCreate && op == "tableCreate" && !before {
+		// the writer of the operation in flight has just created its table file (no kv lock is held
+		// here): another job of the family runs its obsolete-file pass right now, as the trailing
+		// cleanup of a compaction / rollup job does in production. The new table must survive.
+		e.nestAtCreate = false
+		if f, ok := e.fams[filepath.Base(filepath.Dir(path))]; ok {
+			kv.VerifDeleteObsoleteFiles(f)
+			e.classes["deleteObsolete-nested-at-tableCreate"]++
+		}
+	}
+	if p := e.plan; p != nil && !p.fired && op == p.seamOp && before == p.before {
+		e.fireWindow(p)
+	}
+}
+
+func (e *env) noteCreate(path string) {
+	base := strings.TrimSuffix(filepath.Base(path), ".sst")
+	num, err := strconv.ParseInt(base, 10, 64)
+	if err != nil {
+		return
+	}
+	e.cmu.Lock()
+	e.created = append(e.created, createRec{fam: filepath.Base(filepath.Dir(path)), num: num})
+	e.cmu.Unlock()
+}
+
+func (e *env) fireWindow(p *windowPlan) {
+	p.fired = true
+	p.done = make(chan struct{})
+	e.window.Store(true)
+	started := make(chan struct{})
+	go func() {
+		defer close(p.done)
+		close(started)
+		for _, s := range p.specs {
+			w, err := e.openWriterRaw(s)
+			if w != nil {
+				p.opened = append(p.opened, w)
+			}
+			if err != nil {
+				p.err = err
+				return
+			}
+		}
+	}()
+	<-started // the wait below does not include the time the scheduler needs to start the helper
+	timer := time.NewTimer(windowWait)
+	defer timer.Stop()
+	select {
+	case <-p.done:
+		p.inside = true
+	case <-timer.C:
+	}
+}
+
+// finishWindow is called right after the commit returned: the writers of the window are all open
+// before the history goes on.
+func (e *env) finishWindow(p *windowPlan) {
+	e.plan = nil
+	if p == nil {
+		return
+	}
+	e.classes["window-planned"]++
+	if !p.fired {
+		e.classes["window-not-reached(empty edit log)"]++
+		return
+	}
+	<-p.done
+	e.window.Store(false)
+	e.pending = append(e.pending, p.opened...)
+	e.classes["window-fired"]++
+	e.classes["window-fired@"+p.seamOp]++
+	e.classes["window-writers-opened"] += len(p.opened)
+	if len(p.opened) >= 2 {
+		e.classes["window-fired-writers>=2"]++
+		e.multiWindow = true
+		e.histLabels["hist-window>=2"] = true
+	}
+	if p.inside {
+		e.classes["window-writers-opened-during-commit"]++
+	} else {
+		e.classes["window-writers-waited-for-commit"]++
+	}
+}
 
 // ---- operations ------------------------------------------------------------------------------
 
@@ -151,15 +402,8 @@ func (e *env) pickFamily() string {
 	return rapid.SampledFrom(e.famNames).Draw(e.t, "family")
 }
 
-func (e *env) opFlush() {
-	name := e.pickFamily()
-	f := e.fams[name]
-	nKeys := 0
-	switch rapid.IntRange(0, 9).Draw(e.t, "flushKind") {
-	case 0: // empty flush
-	default:
-		nKeys = rapid.IntRange(1, 12).Draw(e.t, "nKeys")
-	}
+func (e *env) drawKeys(min, max int) ([]uint32, []bool) {
+	nKeys := rapid.IntRange(min, max).Draw(e.t, "nKeys")
 	keySet := map[uint32]bool{}
 	for i := 0; i < nKeys; i++ {
 		keySet[rapid.SampledFrom(e.universe).Draw(e.t, "key")] = true
@@ -169,6 +413,108 @@ func (e *env) opFlush() {
 		keys = append(keys, k)
 	}
 	sort.Slice(keys, func(i, j int) bool { return keys[i] < keys[j] })
+	modes := make([]bool, len(keys))
+	for i := range keys {
+		modes[i] = rapid.Bool().Draw(e.t, "stream")
+	}
+	return keys, modes
+}
+
+func (e *env) drawSpec() writerSpec {
+	fam := e.pickFamily()
+	keys, modes := e.drawKeys(1, 6)
+	e.atom++
+	e.writerSeq++
+	return writerSpec{id: e.writerSeq, fam: fam, keys: keys, modes: modes, atom: e.atom}
+}
+
+// drawWindow decides whether (and where) further writers are opened inside the next commit.
+func (e *env) drawWindow(room int) *windowPlan {
+	if room <= 0 || rapid.IntRange(0, 3).Draw(e.t, "window") != 0 {
+		return nil
+	}
+	n := rapid.SampledFrom([]int{1, 2, 2, 3}).Draw(e.t, "windowWriters")
+	if n > room {
+		n = room
+	}
+	seam := rapid.IntRange(0, 3).Draw(e.t, "windowSeam")
+	p := &windowPlan{seamOp: []string{"manifestWrite", "manifestSync"}[seam/2], before: seam%2 == 0}
+	for i := 0; i < n; i++ {
+		p.specs = append(p.specs, e.drawSpec())
+	}
+	return p
+}
+
+func addKeys(fl kv.Flusher, keys []uint32, modes []bool, atom uint32) error {
+	val := kvsim.Encode(map[uint32]bool{atom: true})
+	for i, k := range keys {
+		if modes[i] {
+			sw, err := fl.StreamWriter()
+			if err != nil {
+				return err
+			}
+			sw.Prepare(k)
+			if _, err = sw.Write(val[:2]); err != nil {
+				return err
+			}
+			if _, err = sw.Write(val[2:]); err != nil {
+				return err
+			}
+			if err = sw.Commit(); err != nil {
+				return err
+			}
+		} else if err := fl.Add(k, val); err != nil {
+			return err
+		}
+	}
+	return nil
+}
+
+// openWriterRaw creates a flusher and adds the data (the first key creates the table file and
+// thereby takes a file number). It may run on the helper goroutine of a window: it touches no
+// harness state except the seam record of created tables.
+func (e *env) openWriterRaw(s writerSpec) (*writer, error) {
+	f := e.fams[s.fam]
+	e.cmu.Lock()
+	n0 := len(e.created)
+	e.cmu.Unlock()
+	w := &writer{id: s.id, fam: s.fam, fl: f.NewFlusher(), keys: s.keys, atom: s.atom, num: -1}
+	if err := addKeys(w.fl, s.keys, s.modes, s.atom); err != nil {
+		return w, fmt.Errorf("writer %s: %w", s, err)
+	}
+	e.cmu.Lock()
+	if len(e.created) == n0+1 {
+		w.num = e.created[n0].num
+	}
+	e.cmu.Unlock()
+	return w, nil
+}
+
+// commitTail runs a flusher commit with an optional window inside it.
+func (e *env) commitTail(fl kv.Flusher, plan *windowPlan) error {
+	e.plan, e.lastPlan = plan, plan
+	err := fl.Commit()
+	e.finishWindow(plan)
+	fl.Release()
+	return err
+}
+
+func (e *env) windowError(plan *windowPlan) {
+	if plan != nil && plan.err != nil {
+		e.fatalf("opening a writer concurrently with a commit failed: %v", plan.err)
+	}
+}
+
+func (e *env) opFlush() {
+	name := e.pickFamily()
+	f := e.fams[name]
+	var keys []uint32
+	var modes []bool
+	switch rapid.IntRange(0, 9).Draw(e.t, "flushKind") {
+	case 0: // empty flush
+	default:
+		keys, modes = e.drawKeys(1, 12)
+	}
 	useSeq := rapid.IntRange(0, 2).Draw(e.t, "useSeq") == 0
 	var leader int32
 	var seq int64
@@ -182,46 +528,26 @@ func (e *env) opFlush() {
 	}
 	e.atom++
 	atom := e.atom
-	modes := make([]bool, len(keys))
-	for i := range keys {
-		modes[i] = rapid.Bool().Draw(e.t, "stream")
-	}
-	e.begin("flush", name, fmt.Sprintf("keys=%v atom=%d seq=%v/%d:%d", keys, atom, useSeq, leader, seq))
+	plan := e.drawWindow(maxPending - len(e.pending))
+	nest := len(keys) > 0 && rapid.IntRange(0, 3).Draw(e.t, "cleanupAtTableCreate") == 0
+	e.begin("flush", name, fmt.Sprintf("keys=%v atom=%d seq=%v/%d:%d window=%s nestedCleanup=%v", keys, atom, useSeq, leader, seq, plan, nest))
 	fl := f.NewFlusher()
-	var err error
-	for i, k := range keys {
-		val := kvsim.Encode(map[uint32]bool{atom: true})
-		if modes[i] {
-			var sw table.StreamWriter
-			sw, err = fl.StreamWriter()
-			if err != nil {
-				break
-			}
-			sw.Prepare(k)
-			if _, err = sw.Write(val[:2]); err != nil {
-				break
-			}
-			if _, err = sw.Write(val[2:]); err != nil {
-				break
-			}
-			if err = sw.Commit(); err != nil {
-				break
-			}
-		} else if err = fl.Add(k, val); err != nil {
-			break
-		}
-	}
+	e.nestAtCreate = nest
+	err := addKeys(fl, keys, modes, atom)
+	e.nestAtCreate = false
 	if err == nil {
 		if useSeq {
 			fl.Sequence(leader, seq)
 		}
-		err = fl.Commit()
+		err = e.commitTail(fl, plan)
+	} else {
+		fl.Release()
 	}
-	fl.Release()
 	e.end()
 	if err != nil {
 		e.fatalf("flush of family %s failed: %v", name, err)
 	}
+	e.windowError(plan)
 	// commit returned success: the model moves
 	for _, k := range keys {
 		e.cur[name].content.AddAtom(k, atom)
@@ -229,7 +555,90 @@ func (e *env) opFlush() {
 	if useSeq {
 		e.cur[name].seqs[leader] = seq
 	}
+	if len(keys) > 0 || useSeq {
+		e.commitsInSession++
+	}
 	e.classes["flush"]++
+}
+
+// opOpenWriter starts a writer and leaves it unfinished: its table exists (partly in user-space
+// buffers), no record of it is in the manifest, its number is a pending output of the family.
+func (e *env) opOpenWriter() {
+	if len(e.pending) >= maxPending {
+		e.t.Skip("enough unfinished writers")
+	}
+	s := e.drawSpec()
+	nest := rapid.IntRange(0, 3).Draw(e.t, "cleanupAtTableCreate") == 0
+	e.begin("openWriter", s.fam, fmt.Sprintf("%s nestedCleanup=%v", s, nest))
+	e.nestAtCreate = nest
+	w, err := e.openWriterRaw(s)
+	e.nestAtCreate = false
+	if w != nil {
+		e.pending = append(e.pending, w) // before end(): whatever fails, the cleanup releases the flusher
+	}
+	e.end()
+	if err != nil {
+		e.fatalf("open writer: %v", err)
+	}
+	e.classes["op-openWriter"]++
+	e.histLabels["hist-unfinished-writer"] = true
+}
+
+// commitWriter commits the idx-th unfinished writer.
+func (e *env) commitWriter(idx int, useSeq bool, leader int32, seqDelta int64, plan *windowPlan) {
+	w := e.pending[idx]
+	var seq int64
+	if useSeq {
+		// the sequence is handed to the flusher right before the commit, as the callers do
+		seq = e.cur[w.fam].seqs[leader] + seqDelta
+	}
+	e.begin("commitWriter", w.fam, fmt.Sprintf("w%d keys=%v atom=%d seq=%v/%d:%d window=%s", w.id, w.keys, w.atom, useSeq, leader, seq, plan))
+	if useSeq {
+		w.fl.Sequence(leader, seq)
+	}
+	e.pending = append(e.pending[:idx:idx], e.pending[idx+1:]...)
+	w.released = true
+	err := e.commitTail(w.fl, plan)
+	e.end()
+	if err != nil {
+		e.fatalf("commit of writer w%d of family %s failed: %v", w.id, w.fam, err)
+	}
+	e.windowError(plan)
+	for _, k := range w.keys {
+		e.cur[w.fam].content.AddAtom(k, w.atom)
+	}
+	if useSeq {
+		e.cur[w.fam].seqs[leader] = seq
+	}
+	e.commitsInSession++
+	e.classes["op-commitWriter"]++
+}
+
+func (e *env) opCommitWriter() {
+	if len(e.pending) == 0 {
+		e.t.Skip("no unfinished writer")
+	}
+	idx := rapid.IntRange(0, len(e.pending)-1).Draw(e.t, "writer")
+	if idx != 0 {
+		e.classes["commitWriter-out-of-open-order"]++
+	}
+	useSeq := rapid.IntRange(0, 2).Draw(e.t, "useSeq") == 0
+	var leader int32
+	var delta int64
+	if useSeq {
+		leader = int32(rapid.IntRange(1, 2).Draw(e.t, "leader"))
+		delta = int64(rapid.IntRange(1, 5).Draw(e.t, "seqDelta"))
+	}
+	plan := e.drawWindow(maxPending - (len(e.pending) - 1))
+	e.commitWriter(idx, useSeq, leader, delta, plan)
+}
+
+// drainPending commits every unfinished writer (a store is only closed when its flushers are done).
+func (e *env) drainPending() {
+	for len(e.pending) > 0 {
+		e.commitWriter(0, false, 0, 0, nil)
+		e.classes["commitWriter-before-close"]++
+	}
 }
 
 func (e *env) opCompact() {
@@ -243,6 +652,10 @@ func (e *env) opCompact() {
 	}
 	if ran {
 		e.classes["compact-ran"]++
+		e.commitsInSession++
+		if len(e.pending) > 0 {
+			e.classes["compact-ran-with-unfinished-writers"]++
+		}
 	}
 }
 
@@ -252,13 +665,89 @@ func (e *env) opCleanup() {
 	kv.VerifDeleteObsoleteFiles(e.fams[name])
 	kv.VerifCacheCleanup(e.store)
 	e.end()
+	if len(e.pending) > 0 {
+		e.classes["deleteObsolete-with-unfinished-writers"]++
+	}
+}
+
+// opStoreCompact is one tick of the periodic store housekeeping (kv.JobScheduler -> Store.compact):
+// every family that wants a compaction gets one, then the reader cache is cleaned. Production starts
+// the family jobs as background goroutines; to keep the run a function of the seed at most one
+// family (bg) is left to the background job and waited for, the others get the same job (same
+// guard) on this goroutine right before the tick. With unfinished writers nothing is left to the
+// background (waiting for a family also waits for its flushers).
+func (e *env) opStoreCompact() {
+	if len(e.famNames) == 0 {
+		e.t.Skip("no family")
+	}
+	bg := ""
+	if len(e.pending) == 0 && rapid.IntRange(0, 3).Draw(e.t, "background") != 0 {
+		bg = rapid.SampledFrom(e.famNames).Draw(e.t, "bgFamily")
+	}
+	e.begin("storeCompact", "", "bg="+bg)
+	var err error
+	ranSync, l0 := 0, 0
+	for _, n := range e.famNames {
+		if n == bg {
+			snap := e.fams[n].GetSnapshot()
+			l0 = snap.GetCurrent().NumberOfFilesInLevel(0)
+			snap.Close()
+			continue
+		}
+		var ran bool
+		if ran, err = kv.VerifCompactSync(e.fams[n], false); err != nil {
+			break
+		}
+		if ran {
+			ranSync++
+		}
+	}
+	ranBg := false
+	if err == nil {
+		kv.VerifStoreCompact(e.store)
+		if len(e.pending) == 0 {
+			for _, n := range e.famNames {
+				kv.VerifWaitIdle(e.fams[n])
+			}
+		}
+		if bg != "" {
+			snap := e.fams[bg].GetSnapshot()
+			ranBg = l0 > 0 && snap.GetCurrent().NumberOfFilesInLevel(0) == 0
+			snap.Close()
+		}
+	}
+	e.end()
+	if err != nil {
+		e.fatalf("store housekeeping: compaction failed: %v", err)
+	}
+	e.classes["op-storeCompact"]++
+	if ranSync > 0 || ranBg {
+		e.classes["storeCompact-compaction-ran"]++
+	}
+	if ranBg {
+		e.classes["storeCompact-background-compaction-ran"]++
+	}
+	if e.commitsInSession > 0 {
+		e.classes["storeCompact-after-commit-in-session"]++
+		e.histLabels["hist-storeCompact-after-commit-in-session"] = true
+	} else {
+		e.classes["storeCompact-before-first-commit-of-session"]++
+	}
+	if len(e.pending) > 0 {
+		e.classes["storeCompact-with-unfinished-writers"]++
+	}
+	if ranSync > 0 || ranBg {
+		e.commitsInSession++
+	}
 }
 
 func (e *env) opReopen() {
+	e.drainPending()
 	e.begin("reopen", "", "")
 	e.closeStore()
 	e.openStore()
 	e.end()
+	e.commitsInSession, e.multiWindow = 0, false
 	e.classes["reopen"]++
 }
 
@@ -439,8 +928,16 @@ func (e *env) recoverImage(p crash.Point, deep bool) {
 
 // crashCheck recovers images of the history so far.
 func (e *env) crashCheck(final bool) {
-	pts := e.im.Points
+	var pts []crash.Point
+	for _, p := range e.im.Points {
+		if p.Dir != "" {
+			pts = append(pts, p)
+		}
+	}
+	e.classes["fs-points"] += len(e.im.Points)
+	e.classes["fs-points-imaged"] += len(pts)
 	if len(pts) == 0 {
+		e.im.Drop()
 		return
 	}
 	var chosen []int
@@ -476,6 +973,10 @@ func (e *env) crashCheck(final bool) {
 		}
 		e.classes["img-"+p.OpName]++
 		e.classes["fsop-"+p.FSOp]++
+		if p.OpIdx < len(e.pendingAt) && (e.pendingAt[p.OpIdx] > 0 || p.OpName == "openWriter") {
+			e.classes["img-with-unfinished-writers"]++
+			e.histLabels["hist-crash-image-with-unfinished-writers"] = true
+		}
 		// close the recovered store right away to bound open files / mmaps
 		_ = kv.GetStoreManager().CloseStore(p.Dir)
 	}
@@ -511,7 +1012,7 @@ func runHistory(t *rapid.T, thorough bool) {
 	e := &env{
 		t: t, dir: dir, storePath: filepath.Join(dir, "store"),
 		fams: map[string]kv.Family{}, cur: model{}, classes: map[string]int{}, thorough: thorough,
-		universe: keyUniverse,
+		universe: keyUniverse, histLabels: map[string]bool{},
 	}
 	e.opt = kv.StoreOption{Levels: rapid.IntRange(2, 3).Draw(t, "levels"), TTL: ltoml.Duration(time.Hour)}
 	e.famOpt = kv.FamilyOption{
@@ -520,14 +1021,35 @@ func runHistory(t *rapid.T, thorough bool) {
 		MaxFileSize:      rapid.SampledFrom([]uint32{0, 8, 24, 64, 1 << 20}).Draw(t, "maxFileSize"),
 	}
 	e.im = &crash.Imager{Root: e.storePath, OutDir: filepath.Join(dir, "img")}
-	kv.VerifSetFSHook(e.im.Hook)
-	version.VerifSetFSHook(version.VerifFSHook(e.im.Hook))
-	table.VerifSetFSHook(table.VerifFSHook(e.im.Hook))
+	if !thorough {
+		e.im.Want = func(p crash.Point) bool { return p.Seq%imageStride == e.phase }
+	}
+	kv.VerifSetFSHook(e.hook)
+	version.VerifSetFSHook(version.VerifFSHook(e.hook))
+	table.VerifSetFSHook(table.VerifFSHook(e.hook))
 	defer func() {
+		// no goroutine and no flusher outlives the case (a store waits for its flushers when it closes)
+		if p := e.lastPlan; p != nil && p.done != nil {
+			<-p.done
+			for _, w := range p.opened {
+				if !w.released {
+					w.released = true
+					w.fl.Release()
+				}
+			}
+		}
+		for _, w := range e.pending {
+			if !w.released {
+				w.released = true
+				w.fl.Release()
+			}
+		}
+		e.im.Active = false
+		e.tracking.Store(false)
+		e.window.Store(false)
 		kv.VerifSetFSHook(nil)
 		version.VerifSetFSHook(nil)
 		table.VerifSetFSHook(nil)
-		e.im.Active = false
 		for _, d := range e.opened {
 			_ = kv.GetStoreManager().CloseStore(d)
 		}
@@ -545,8 +1067,11 @@ func runHistory(t *rapid.T, thorough bool) {
 		"createFamily": func(t *rapid.T) { e.t = t; e.opCreateFamily() },
 		"flush":        func(t *rapid.T) { e.t = t; e.opFlush() },
 		"flush2":       func(t *rapid.T) { e.t = t; e.opFlush() },
+		"openWriter":   func(t *rapid.T) { e.t = t; e.opOpenWriter() },
+		"commitWriter": func(t *rapid.T) { e.t = t; e.opCommitWriter() },
 		"compact":      func(t *rapid.T) { e.t = t; e.opCompact() },
 		"cleanup":      func(t *rapid.T) { e.t = t; e.opCleanup() },
+		"storeCompact": func(t *rapid.T) { e.t = t; e.opStoreCompact() },
 		"reopen":       func(t *rapid.T) { e.t = t; e.opReopen() },
 		"crash": func(t *rapid.T) {
 			e.t = t
@@ -558,11 +1083,16 @@ func runHistory(t *rapid.T, thorough bool) {
 		"": func(t *rapid.T) { e.t = t; e.checkLive() },
 	})
 	e.t = t
+	e.drainPending()
 	e.crashCheck(true)
 	e.checkLive()
 
 	canon := fmt.Sprintf("%+v|%+v|%+v", e.opt.Levels, e.famOpt, e.ops)
 	classes := []string{}
+	for l := range e.histLabels {
+		classes = append(classes, l)
+	}
+	sort.Strings(classes)
 	for c, n := range e.classes {
 		ev.Class("TestCrashRecovery", c, n)
 	}
